@@ -199,3 +199,10 @@ def map_compose(db, ctx):
     from . import C08
     C08.compose(db, ctx)
     ctx.floor(4)
+
+
+@rule("C01.no-stale-results", "only an input whose normalised form is empty yields no morphemes: the previous result must be cleared by reset(), not where the path is rebuilt (re-evaluation of C10.scalars|reset|clears-results)")
+def no_stale_results(db, ctx):
+    from . import C10
+    C10.reset_clears_results(db, ctx)
+    ctx.floor(1)
